@@ -163,6 +163,15 @@ class Engine:
                 p.cons.append(Con("assume", z3.And(v >= lo, v <= hi), "domain"))
         return v
 
+    def fresh_input(self, p, name, lo=0, hi=P - 1):
+        """Input variables are named by their position only (suffix !0), so that two compilations
+        of the same function share them."""
+        v = z3.Int(f"{name}!0")
+        self.declared[str(v)] = (lo, hi)
+        p.bnd[v.get_id()] = (lo, hi)
+        p.cons.append(Con("assume", z3.And(v >= lo, v <= hi), "domain"))
+        return v
+
     def bounds(self, p, x):
         if is_int(x):
             return (x, x)
